@@ -366,6 +366,9 @@ MUTATIONS = [
                         disjlist.remove(this_d)
 """),
                ('gnpy/topology/request.py', "    if any(d in dis2 for d in dis1):\n", "    if False:\n")]},
+    {'id': 'c09-revert-voa-not-above-headroom', 'props': ['C09'], 'tests': 'tests/test_amplifier.py',
+     'desc': 'revert of the fix: the automatic VOA is rounded to the nearest step, possibly above the headroom',
+     'edits': [('gnpy/core/network.py', "            if voa > headroom + 1e-9:\n", "            if False:\n")]},
     {'id': 'c11-revert-explicit-ispart', 'props': ['C11'], 'tests': 'tests/test_path_computation_functions.py tests/test_disjunction.py',
      'desc': 'revert of fix e50d35fe: explicit route returned without checking the listed nodes are crossed in order',
      'edits': [('gnpy/topology/request.py', "    if total_path is not None and ispart(nodes_list, total_path):",
